@@ -100,6 +100,10 @@ func newRig(t *testing.T, cfg config, track bool) *rig {
 	}
 	r.p = p
 	<-p.C.Ready()
+	// Cluster.ready() closes readyCh and only then takes shutdownLock; a
+	// Shutdown that gets in between deadlocks with it (Shutdown holds the lock
+	// and waits for that goroutine). Let ready() finish before anything else.
+	synctest.Wait()
 	for i, pid := range healthy {
 		m := &api.Metric{Name: "freespace", Peer: pid, Value: fmt.Sprint(300 - 100*i), Valid: true}
 		m.SetTTL(longTTL)
